@@ -88,8 +88,10 @@ def gen_case(ctx, idx, stream='case'):
     if c['planes'] == 1 and c['layout'] == '3d' and r.random() < 0.4:
         c['layout'] = '2d'
     nseg = r.choice([1, 1, 2, 2, 3, 4, 5])
-    if isfloat and c['layout'] != '4d':
-        nseg = 1                            # a 3-D float array is a single segment by definition
+    if isfloat and c['layout'] != '4d' and not (c['type'] != 'LABELMAP' and r.random() < 0.15):
+        nseg = 1                            # a 3-D float array is a single segment by definition (15 %: several
+        #                                     descriptions anyway -- BINARY: label-map meaning, segment 1 only;
+        #                                     FRACTIONAL: open finding, the mask is copied to every segment)
     if c['type'] == 'LABELMAP' and r.random() < 0.6:
         pool = [1, 2, 3, 5, 8, 13, 40, 100, 254, 255, 256, 257, 300, 511, 700, 4097, 65535]
         segs = sorted(r.sample(pool, nseg))
@@ -101,10 +103,17 @@ def gen_case(ctx, idx, stream='case'):
     if c['dtype'] == 'uint8' and c['layout'] != '4d':
         c['segs'] = segs = [s for s in segs if s < 256] or [1]
     if c['dtype'] == 'bool' and c['layout'] != '4d':
-        c['segs'] = segs = [1]
+        # a bool 3-D mask can only address label 1; further described segments must come back empty
+        if 1 not in segs or r.random() < 0.7:
+            segs = [1]
+        else:
+            segs = [1] + [s_ for s_ in segs if s_ != 1][:2]
+        c['segs'] = segs = sorted(set(segs))
     c['mfv'] = r.choice([1, 2, 100, 255, 255, 255, 256, 7, 0, 3])
     c['omit'] = r.random() < 0.6
     c['empty'] = r.choice(['none', 'none', 'some_planes', 'some_seg_planes', 'all', 'one_pixel', 'tiny'])
+    # fractions: dyadic k/1024 (+ exact ties), or non-dyadic values within a few ulps of a tie (k + 1/2) / mfv
+    c['fractions'] = r.choice(['dyadic', 'dyadic', 'near_tie', 'random'])
     c['density'] = r.choice([0.2, 0.5, 0.8])
     if c['type'] == 'BINARY':
         c['ts'] = r.choice(NATIVE)
@@ -180,6 +189,19 @@ def build_mask(c):
         else:
             m = np.array(segs, dtype=np.int64)[nr.integers(0, S, size=(P, R, C))]
             m[nr.random((P, R, C)) > c['density']] = 0
+    if fractional_values and c.get('fractions', 'dyadic') != 'dyadic' and c['mfv'] > 1:
+        shape = m.shape
+        if c['fractions'] == 'random':
+            vals = nr.random(shape)
+        else:
+            # the float nearest to a tie (k + 1/2) / mfv, k >= 1, moved by -2..2 ulps (k = 0 would move emptiness)
+            k = nr.integers(1, max(c['mfv'], 2), size=shape)
+            vals = ((k + 0.5) / c['mfv']).astype(dt)
+            for _ in range(2):
+                step = nr.integers(-1, 2, size=shape)
+                vals = np.where(step > 0, np.nextafter(vals, dt(2)), np.where(step < 0, np.nextafter(vals, dt(-1)), vals))
+            vals = np.clip(vals, 0, 1)
+        m = np.where(m != 0, vals, 0.0)
     # emptiness patterns
     e = c['empty']
     if e == 'all':
@@ -275,6 +297,43 @@ def _relayout(m, mem):
         out = m
     assert out.shape == m.shape and np.array_equal(out, m)
     return out
+
+
+def near_tie_alternative(c, mask, exp):
+    """Audit A, C01-2: the code rounds the *float* product x * mfv.  Where the exact product lies within float error of
+    a tie k + 1/2 either neighbour may be stored: returns the array of the alternative acceptable values (= exp
+    elsewhere)."""
+    m = mask[None] if mask.ndim == 2 else mask
+    alt = exp.copy()
+    if not (m.dtype.kind == 'f' and c['type'] == 'FRACTIONAL'):
+        return alt
+    mfv = c['mfv']
+    rel = Fraction(1, 2 ** (21 if m.dtype == np.float32 else 50))
+    src = m if m.ndim == 4 else m[..., None]
+    it = np.nditer(src, flags=['multi_index'])
+    for x in it:
+        if x == 0:
+            continue
+        q = Fraction(float(x)) * mfv
+        fl = q.numerator // q.denominator
+        d = abs(q - (fl + Fraction(1, 2)))
+        if d <= q * rel:
+            idx = it.multi_index
+            tgt = idx if m.ndim == 4 else idx[:3] + (slice(None),)
+            cur = exp[tgt]
+            alt[tgt] = np.where(cur == fl, fl + 1, fl)
+    return alt
+
+
+def float_product_mask(c, mask):
+    """What the model is fed for float FRACTIONAL input: x~ = fl(x * mfv) / mfv with the product taken by NumPy in the
+    array's own float type (independently of highdicom), as exact rationals -- so the model's exact `x~ * mfv` IS the
+    float product the code rounds."""
+    if not (mask.dtype.kind == 'f' and c['type'] == 'FRACTIONAL' and c['mfv'] >= 1):
+        return None
+    prod = mask * float(c['mfv'])          # float32 array * Python float stays float32
+    assert prod.dtype == mask.dtype
+    return prod
 
 
 def expected_raw(c, mask):
@@ -526,7 +585,16 @@ def model_args(c, mask):
         flat = m.reshape(P, -1, m.shape[-1])
     else:
         flat = m.reshape(P, -1)
-    if isfloat:
+    prod = float_product_mask(c, m)
+    if prod is not None:
+        pflat = prod.reshape(flat.shape)
+        mfv_ = c['mfv']
+
+        def rat_over(x):
+            f = Fraction(float(x)) / mfv_
+            return str(f.numerator) if f.denominator == 1 else f'{f.numerator}/{f.denominator}'
+        planes = np.vectorize(rat_over, otypes=[object])(pflat).tolist()
+    elif isfloat:
         planes = np.vectorize(_rat, otypes=[object])(flat).tolist()
     else:
         planes = flat.astype(np.int64).tolist()
@@ -591,6 +659,13 @@ def run_case(ctx, c, reqs, pending, paths=('memory', 'eager', 'lazy')):
         pending.append((desc, 'refusal', ('err', kind)))
         return
     exp = expected_raw(c, mask)
+    alt = near_tie_alternative(c, mask, exp)
+    n_ties = int((alt != exp).sum())
+    ctx.hist('near_tie_pixels', n_ties if n_ties < 9 else '9+')
+
+    def same(got, sel=slice(None)):
+        got = np.asarray(got).astype(np.int64)
+        return got.shape == exp[sel].shape and bool(np.all((got == exp[sel]) | (got == alt[sel])))
     nonempty = bool(exp.any())
     varied = P == 1 or any(not np.array_equal(exp[0], exp[p]) for p in range(1, P))
     # ---- write once
@@ -678,8 +753,9 @@ def run_case(ctx, c, reqs, pending, paths=('memory', 'eager', 'lazy')):
             except Exception as e:  # noqa: BLE001
                 ctx.fail(case, f'read refused: {type(e).__name__}: {e}'[:300], site=f'read/{path}')
                 continue
-            if got.shape != want.shape or not np.array_equal(got.astype(np.int64), want):
-                bad = np.argwhere(got.astype(np.int64) != want)[:3].tolist() if got.shape == want.shape else 'shape'
+            if not same(got, order):
+                bad = np.argwhere((got.astype(np.int64) != want) & (got.astype(np.int64) != alt[order]))[:3].tolist() \
+                    if got.shape == want.shape else 'shape'
                 ctx.fail(case, {'what': 'read-back differs from the mask passed in', 'shape_got': list(got.shape),
                                 'shape_want': list(want.shape), 'first_diffs': bad}, site=f'read/{path}')
             if path == 'memory':
@@ -694,7 +770,9 @@ def run_case(ctx, c, reqs, pending, paths=('memory', 'eager', 'lazy')):
                                                                                  else UID_SPELLINGS)),
                                      assert_missing_frames_are_empty=True)
                     wantf = want.astype(np.float64) / c['mfv']
-                    if gotf.shape != wantf.shape or not np.all(np.abs(gotf.astype(np.float64) - wantf) <= 1e-7):
+                    altf = alt[order].astype(np.float64) / c['mfv']
+                    if gotf.shape != wantf.shape or not np.all((np.abs(gotf.astype(np.float64) - wantf) <= 1e-7) |
+                                                               (np.abs(gotf.astype(np.float64) - altf) <= 1e-7)):
                         ctx.fail(case, 'rescaled fractional read-back differs from round(q*mfv)/mfv', site=f'read-rescaled/{path}')
                 except Exception as e:  # noqa: BLE001
                     ctx.fail(case, f'rescaled read refused: {type(e).__name__}: {e}'[:300], site=f'read-rescaled/{path}')
@@ -718,30 +796,59 @@ def run_case(ctx, c, reqs, pending, paths=('memory', 'eager', 'lazy')):
                 read_back(obj, c, src, ids, list(reversed(supplied)), spell='tuple', assert_missing_frames_are_empty=True)
                 again = read_back(obj, c, src, ids, supplied, spell='ndarray' if c['source'] == 'enhanced' else 'tuple',
                                   assert_missing_frames_are_empty=True, rescale_fractional=False)
-                if not (first.shape == again.shape and np.array_equal(first, again)
-                        and np.array_equal(again.astype(np.int64), exp)):
+                if not (first.shape == again.shape and np.array_equal(first, again) and same(again)):
                     ctx.fail(case, 'the same read gives a different answer after other calls on the object', site='read-sequence')
                 if _snapshot(obj) != snap:
                     ctx.fail(case, 'reading modified the object (PixelData / NumberOfFrames / per-frame items / segments)',
                              site='read-sequence')
             except Exception as e:  # noqa: BLE001
                 ctx.fail(case, f'call sequence failed: {type(e).__name__}: {e}'[:300], site='read-sequence')
-        # without the missing-frames flag: must work exactly when every requested source is referenced by a frame
-        if path == 'memory':
+        # without the missing-frames flag (audit A, C01-1).  Independent statement of what the documented API does:
+        # * by source instance every one of the object's source images is known -> the read succeeds, an omitted (empty)
+        #   plane comes back as zeros; an unknown UID is refused;
+        # * by source frame a number above the highest frame number that has a stored frame is refused ("cannot be
+        #   certain that it is valid"), every number up to it succeeds (omitted ones as zeros).
+        if path in ('memory', 'eager'):
             stored_planes = {p for p in range(P) if exp[p].any()} if (c['omit'] and nonempty) else set(range(P))
+            ambiguous = c['omit'] and bool(np.any((alt != exp) & ((alt == 0) | (exp == 0))))
+            for order, oname in ((supplied, 'strict'), (sub, 'strict-subset')):
+                scase = dict(desc, path=path, request=oname, order=order)
+                must_succeed = max(order) <= max(stored_planes) if c['source'] == 'enhanced' else True
+                kind = None
+                try:
+                    got = read_back(obj, c, src, ids, order, rescale_fractional=False)
+                    ok = True
+                except (KeyError, ValueError) as e:
+                    ok = False
+                    kind = _err_kind(e)
+                except Exception as e:  # noqa: BLE001
+                    ok = None
+                    ctx.fail(scase, f'strict read failed: {type(e).__name__}: {e}'[:300], site='read-strict')
+                ctx.case(path=path + '/strict', outcome='ok' if ok else 'refused', strict_must_succeed=must_succeed)
+                if ok is True and not same(got, order):
+                    ctx.fail(scase, 'strict read-back differs from the mask passed in', site='read-strict')
+                if not ambiguous:
+                    if ok is True and not must_succeed:
+                        ctx.fail(scase, 'source frame above the highest referenced frame accepted without '
+                                 'assert_missing_frames_are_empty', site='read-strict')
+                    if ok is False and must_succeed:
+                        ctx.fail(scase, 'strict read refused although every requested source is known to the object',
+                                 site='read-strict')
+                if path == 'memory' and ok is not None:
+                    reqs.append(('roundtrip', dict(margs, request=order, allow_missing=False,
+                                                   multiframe=c['source'] == 'enhanced', nsrc=P)))
+                    pending.append((scase, 'strict', ('ok', got.astype(np.int64).transpose(0, 3, 1, 2)
+                                                      .reshape(len(order), -1, n).tolist()) if ok else ('err', kind)))
+            # an unknown source is refused without the flag
             try:
-                got = read_back(obj, c, src, ids, supplied, rescale_fractional=False)
-                ok = True
-            except (KeyError, ValueError, RuntimeError):
-                ok = False      # which refusal a missing source gets is not part of the property
-            except Exception as e:  # noqa: BLE001
-                ok = None
-                ctx.fail(dict(desc, path=path, request='strict'), f'strict read failed: {type(e).__name__}: {e}'[:300], site='read-strict')
-            if ok is True and not np.array_equal(got.astype(np.int64), exp):
-                ctx.fail(dict(desc, path=path, request='strict'), 'strict read-back differs', site='read-strict')
-            if ok is False and stored_planes == set(range(P)):
-                ctx.fail(dict(desc, path=path, request='strict'), 'strict read refused although every source has a frame', site='read-strict')
-            ctx.case(path='memory/strict', outcome='ok' if ok else 'keyerror')
+                if c['source'] == 'enhanced':
+                    obj.get_pixels_by_source_frame('1.2.3.4.5.6.7.8', [1])
+                else:
+                    obj.get_pixels_by_source_instance([ids[0][1], '1.2.3.4.5.6.7.8'])
+                ctx.fail(dict(desc, path=path, request='unknown-source'), 'unknown source accepted without '
+                         'assert_missing_frames_are_empty', site='read-strict')
+            except Exception:  # noqa: BLE001
+                pass
     objs.clear()
     if tmpdir is not None:
         tmpdir.cleanup()
@@ -766,7 +873,8 @@ def run_case(ctx, c, reqs, pending, paths=('memory', 'eager', 'lazy')):
                         w = lab
                     else:
                         w = exp[p, :, :, c['segs'].index(s)]
-                    if not np.array_equal(px[i].astype(np.int64), w):
+                    w2 = w if c['type'] == 'LABELMAP' else alt[p, :, :, c['segs'].index(s)]
+                    if not np.all((px[i].astype(np.int64) == w) | (px[i].astype(np.int64) == w2)):
                         bad = f'frame {i + 1} (segment {s}, plane {p}) of the written file differs from the mask'
                         break
                 # every non-empty (segment, plane) must be stored exactly once
@@ -795,7 +903,7 @@ def run_case(ctx, c, reqs, pending, paths=('memory', 'eager', 'lazy')):
                             srcit = it.DerivationImageSequence[0].SourceImageSequence[0]
                             p = (int(srcit.ReferencedFrameNumber) - 1 if c['source'] == 'enhanced'
                                  else [v for _, v in ids].index(srcit.ReferencedSOPInstanceUID))
-                            if not np.array_equal(fr[k].astype(np.int64), exp[p, :, :, c['segs'].index(sn)]):
+                            if not same(fr[k], (p, slice(None), slice(None), c['segs'].index(sn))):
                                 ctx.fail(dict(desc, path='iter_segments'),
                                          f'iter_segments: frame {k} of segment {sn} (plane {p}) differs from the mask',
                                          site='iter_segments')
@@ -930,6 +1038,15 @@ def _compare(ctx, reqs, pending, escalate=True):
                 ctx.disagree('L2', case, impl, model, 'helper ok-vs-error')
             elif impl[0] == 'ok' and impl[1] != model[1]:
                 ctx.disagree('L2', case, impl, model, 'helper value')
+        elif what == 'strict':
+            impl = item[2]
+            model = ('ok', ans['ok']) if 'ok' in ans else ('err', ans['err'])
+            if impl[0] != model[0]:
+                ctx.disagree('L0', case, impl[0], model, 'strict read ok-vs-refused')
+            elif impl[0] == 'ok' and impl[1] != model[1]:
+                ctx.disagree('L0', case, impl[1], model[1], 'strict read-back: model != implementation')
+            elif impl[0] == 'err' and impl[1] != model[1]:
+                ctx.disagree('L0', case, impl[1], model[1], 'strict read refusal kind (KeyError vs ValueError)')
         elif what == 'read':
             want, got = item[2], item[3]
             if 'ok' not in ans:
@@ -1185,6 +1302,10 @@ def attribute(failure, open_findings):
             and c.get('type') == 'LABELMAP' and str(c.get('dtype', '')).startswith('float') and c.get('layout') != '4d'
             and 1 not in (c.get('segs') or [1])):
         return 'C01-float-labelmap-undescribed'
+    if ('C01-float-fraction-copied' in ids and c.get('type') == 'FRACTIONAL' and str(c.get('dtype', '')).startswith('float')
+            and c.get('layout') != '4d' and len(c.get('segs') or [1]) > 1
+            and site.split('/')[0] in ('read', 'read-rescaled', 'read-strict', 'read-sequence', 'written-file', 'iter_segments')):
+        return 'C01-float-fraction-copied'
     return None
 
 
